@@ -310,6 +310,27 @@ def observe(name, view, mv, rows, case, universe, where):
     s = view.client_size(i)
     require(s == sizes[i], 'client_size', lambda: f'{w}: id {b2h(i)}: {s} vs {sizes[i]}')
 
+  # The same walks with other calls on the same view in between, and two walks
+  # alive at the same time: each access path stands on its own.
+  inter = []
+  for cid in view.client_ids():
+    inter.append(cid)
+    view.num_clients()
+    view.client_size(cid)
+  require(inter == got_ids, 'client_ids:walk_disturbed_by_other_calls',
+          lambda: f'{w}: {[b2h(i) for i in inter]} vs {[b2h(i) for i in got_ids]}')
+  inter_sizes = []
+  for cid, size in view.client_sizes():
+    inter_sizes.append((cid, size))
+    view.client_size(cid)
+    view.num_clients()
+  require(inter_sizes == got_sizes, 'client_sizes:walk_disturbed_by_other_calls',
+          lambda: f'{w}: {[(b2h(i), n) for i, n in inter_sizes]}')
+  pairs = list(zip(view.client_ids(), view.client_ids()))
+  require([a for a, _ in pairs] == got_ids and [b for _, b in pairs] == got_ids,
+          'client_ids:concurrent_walks_interfere',
+          lambda: f'{w}: {[(b2h(a), b2h(b)) for a, b in pairs]}')
+
   # Iteration.
   got_clients = list(view.clients())
   order = [i for i, _ in got_clients]
@@ -329,6 +350,13 @@ def observe(name, view, mv, rows, case, universe, where):
           lambda: f'{w}: asked {[b2h(i) for i in req]} got {[b2h(i) for i, _ in got_req]}')
   for i, ds in got_req:
     check_dataset(ds, want[i], bsz, f'{w} id={b2h(i)}', 'get_clients')
+  # the request may be any iterable, also a one-shot one
+  got_it = list(view.get_clients(iter(list(req))))
+  require([i for i, _ in got_it] == req, 'get_clients:one_shot_request',
+          lambda: f'{w}: asked iter({[b2h(i) for i in req]}) got {[b2h(i) for i, _ in got_it]}')
+  got_gen = list(view.get_clients(i for i in list(req)))
+  require([i for i, _ in got_gen] == req, 'get_clients:one_shot_request',
+          lambda: f'{w}: asked generator {[b2h(i) for i in req]} got {[b2h(i) for i, _ in got_gen]}')
   got_empty = list(view.get_clients([]))
   require(got_empty == [], 'get_clients:empty_request', w)
   for i in ids:
